@@ -336,30 +336,3 @@ Ltac cntsimp :=
 
 Ltac acbn := cbn [a_hs a_snd a_lst a_efd a_pc a_q a_incb] in *.
 
-Lemma pres_efd a a' : AInv a -> astep a a' -> 0 <= a_efd a'.
-Proof.
-  intros I St. pose proof (i_efd _ I). destruct St; acbn; try lia.
-  destruct (a_efd a <? efd_max); lia.
-Qed.
-
-Lemma pres_busy a a' : AInv a -> astep a a' -> forall h, busy (a_hs a' h) = cnt (in_cs h) (a_snd a').
-Proof.
-  intros I St k. pose proof (i_busy _ I k) as Hb.
-  destruct St; acbn; try exact Hb; cntsimp; unfold hupd; eqb_cases; cbn; unfold b2z; try lia.
-  all: try (destruct (pending (a_hs a h)); cbn; eqb_cases; lia).
-Qed.
-
-Lemma in_remove_h k c l : In k (remove_h c l) <-> In k l /\ k <> c.
-Proof.
-  unfold remove_h. rewrite filter_In. destruct (Nat.eqb_spec k c); cbn; intuition congruence.
-Qed.
-
-(* handle status: only begin_close changes it *)
-Ltac hst_cases :=
-  unfold aopn, hupd in *; eqb_cases; cbn [hst publish add_busy set_pending set_unl run_cb begin_close] in *.
-
-Lemma pres_n2 a a' : AInv a -> astep a a' -> forall h, ~ aopn a' h -> pending (a_hs a' h) = true.
-Proof.
-  intros I St k. pose proof (i_n2 _ I k) as Hb.
-  destruct St; acbn; try exact Hb; hst_cases; cbn; auto.
-Qed.
